@@ -57,6 +57,11 @@ def jit_cached_compile(klass, spec, to_float32=False):
     if to_float32:
         spec = spec_to_float32(spec)
 
+    # copying or pickling an instance (e.g. sklearn.base.clone) makes copyreg cache
+    # `__slotnames__` on the class, which jitclass rejects as an unsupported member
+    if "__slotnames__" in vars(klass):
+        delattr(klass, "__slotnames__")
+
     return jitclass(spec)(klass)
 
 
